@@ -178,15 +178,22 @@ def cases_formula(tier, seed):
 
 
 def oracle_formula(case):
-    import xlcalculator
-    mc = xlcalculator.ModelCompiler()
-    model = mc.read_and_parse_dict({'A1': case['formula']})
-    ev = xlcalculator.Evaluator(model)
+    """in a fresh interpreter that imports nothing but the package: the function must be reachable from a formula"""
+    import os
+    import subprocess
+    import sys
+    code = ("import sys, xlcalculator\n"
+            "model = xlcalculator.ModelCompiler().read_and_parse_dict({'A1': sys.argv[1]})\n"
+            "out = xlcalculator.Evaluator(model).evaluate('Sheet1!A1')\n"
+            "print('OUT', type(out).__name__, getattr(out, 'value', out))\n")
     exp = expected(case['origin'], case['dest'], case['v'], None)
-    try:
-        obs = observe(ev.evaluate('Sheet1!A1'))
-    except Exception as ex:     # noqa
-        obs = ('raise', f'{type(ex).__name__}: {str(ex)[:200]}')
+    p = subprocess.run([sys.executable, '-c', code, case['formula']], capture_output=True, text=True, timeout=120,
+                       env=dict(os.environ, OMP_NUM_THREADS='1'))
+    line = [l for l in p.stdout.splitlines() if l.startswith('OUT ')]
+    if not line:
+        return False, exp, 'raise ' + (p.stderr.strip().splitlines() or ['?'])[-1][:200]
+    _, tname, val = line[0].split(' ', 2)
+    obs = ('text', val) if tname == 'Text' else (('num', int(float(val))) if tname == 'Number' else ('other', line[0]))
     return obs == exp, exp, obs
 
 
